@@ -26,8 +26,14 @@ def maybe_frame(ex, name, dtype="float64"):
 
 def df_obj(ex, nrows, content=None):
     """A DataFrame: number of rows + a CONTENT token (copies, deep copies and column re-selections carry the token of their source)."""
-    t = ex.st.fresh_int("df")
-    return VOpaque("df", t, {"nrows": nrows, "type": "pandas.DataFrame", "content": t if content is None else content})
+    # a newly created DataFrame is a different OBJECT from every DataFrame made before it: identity tokens are distinct numerals
+    # (no assumption needed); its CONTENT token stays symbolic (two tables may or may not hold the same rows)
+    k = ex.st.ghost.get("df_count", 0) + 1
+    ex.st.ghost["df_count"] = k
+    t = z3.IntVal(7_000_000 + k)
+    if content is None:
+        content = ex.st.fresh_int("df_content")
+    return VOpaque("df", t, {"nrows": nrows, "type": "pandas.DataFrame", "content": content})
 
 
 def install_df(cfg: Cfg):
